@@ -1,6 +1,6 @@
 (* Proofs/ErasedSpecProofs.v — the wrapper model refines "a wrapper is an optional value of the
    wrapped type" (C18: transparency, moved-from, empty use, copies). *)
-From Coq Require Import List Bool Arith ZArith NArith Lia.
+From Coq Require Import List Bool Arith ZArith NArith Lia Permutation.
 From Pika Require Import Model.Erased Proofs.ErasedProofs.
 Import ListNotations.
 
@@ -294,3 +294,23 @@ Theorem self_assign_noop sbo st j :
 Proof.
   cbn [sstep fstep]. unfold op2. rewrite Nat.eqb_refl, !andb_false_r. repeat split.
 Qed.
+
+(* ---- F9b: a throwing copy constructor during copy assignment makes the wrapper destroy the
+   old object twice (witness replayed by the harness as a FUNX case) *)
+Lemma run_fx_embed ops st : run fxstep (map FX ops) st = run fstep ops st.
+Proof. revert st; induction ops as [|op r IH]; intro st; cbn [map run]; auto. Qed.
+
+Definition f9b_witness : list fxop :=
+  [FX (FStore 0 {| vbig := false; vcpy := true; vbeh := 0; vpay := 1; vcalls := 0 |} true false);
+   FX (FStore 1 {| vbig := false; vcpy := true; vbeh := 0; vpay := 2; vcalls := 0 |} true false);
+   FXCopyAssignThrow 0 1].
+
+Lemma throwing_copy_double_destroy_refuted :
+  exists n ops x, count_occ Nat.eq_dec (dtors (led (destroy_all (run fxstep ops (init n))))) x = 2.
+Proof. exists 2, f9b_witness, 1. vm_compute. reflexivity. Qed.
+
+Lemma function_destroyed_once_fx n ops :
+  let st := run fxstep (map FX ops) (init n) in
+  let L := led (destroy_all st) in
+  NoDup (ctors L) /\ NoDup (dtors L) /\ Permutation (ctors L) (dtors L).
+Proof. cbv zeta. rewrite run_fx_embed. apply (function_destroyed_once n ops). Qed.
